@@ -35,6 +35,7 @@ type injector struct {
 	injected bool
 	note     string
 	skip     bool
+	late     bool
 }
 
 func (in *injector) AllowMessage(gpbft.ActorID, gpbft.ActorID, gpbft.GMessage) bool { return true }
@@ -43,11 +44,24 @@ func (in *injector) StartInstanceAt(instance uint64, _ time.Time) error {
 	if in.kind == "other-value-for-honest" {
 		return nil // injected later, once the victim has decided
 	}
+	if in.late {
+		return nil // injected from ReceiveMessage once the network is past the target instance
+	}
+	if in.injected {
+		return nil
+	}
 	in.inject(instance, in.id)
 	return nil
 }
 
 func (in *injector) ReceiveMessage(_ context.Context, vm gpbft.ValidatedMessage) error {
+	if in.late && !in.injected && !in.skip {
+		// the network has moved on: report a decision for the instance before the one in progress
+		if mi := vm.Message().Vote.Instance; mi >= 1 {
+			in.inject(mi-1, in.id)
+		}
+		return nil
+	}
 	if in.kind == "other-value-for-honest" && !in.injected {
 		inst := (*in.sm).GetInstance(0)
 		// only while the instance is still open: some other honest participant has not
@@ -189,6 +203,10 @@ func TestC19SimulatorOracle(t *testing.T) {
 				drop = append(drop, i)
 			}
 		}
+		instances := uint64(rapid.IntRange(1, 3).Draw(t, "instances"))
+		// a third of the invalid decisions are reported late: for the previous instance, once the
+		// run has moved on to the next one
+		late := instances >= 2 && kind != "valid" && kind != "none" && kind != "other-value-for-honest" && kind != "valid-then-replayed-aggregate" && rapid.IntRange(0, 2).Draw(t, "late") == 0
 		base := &gpbft.ECChain{TipSets: []*gpbft.TipSet{{Epoch: 0, Key: []byte("sim-genesis"), PowerTable: gpbft.MakeCid([]byte("pt"))}}}
 		var sm *sim.Simulation
 		var inj *injector
@@ -205,7 +223,7 @@ func TestC19SimulatorOracle(t *testing.T) {
 		}
 		if kind != "none" {
 			opts = append(opts, sim.WithAdversary(func(id gpbft.ActorID, host adversary.Host) *adversary.Adversary {
-				inj = &injector{id: id, host: host, kind: kind, drop: drop, sm: &sm, victim: gpbft.ActorID(rapid.IntRange(0, n-1).Draw(t, "victim"))}
+				inj = &injector{id: id, host: host, kind: kind, drop: drop, sm: &sm, victim: gpbft.ActorID(rapid.IntRange(0, n-1).Draw(t, "victim")), late: late}
 				return &adversary.Adversary{Receiver: inj, Power: gpbft.NewStoragePower(1), ID: id}
 			}))
 		}
@@ -214,7 +232,6 @@ func TestC19SimulatorOracle(t *testing.T) {
 		if err != nil {
 			t.Fatalf("HARNESS: NewSimulation: %v", err)
 		}
-		instances := uint64(rapid.IntRange(1, 2).Draw(t, "instances"))
 		runErr := sm.Run(instances, 10)
 		injected := inj != nil && inj.injected && !inj.skip
 		wantErr := injected && kind != "valid"
@@ -231,9 +248,9 @@ func TestC19SimulatorOracle(t *testing.T) {
 		case !wantErr && runErr != nil:
 			vev.Fail(t, c19, "C19/sim/clean-run-failed", "Run failed although nothing invalid was injected (kind %q, %s): %v", kind, note, runErr)
 		}
-		vev.Case(c19, vev.Digest("sim", fmt.Sprint(powers), kind, fmt.Sprint(drop), instances), kind != "valid" && kind != "none", "sim:"+kind, fmt.Sprintf("sim-run-error:%v", runErr != nil))
+		vev.Case(c19, vev.Digest("sim", fmt.Sprint(powers), kind, fmt.Sprint(drop), instances, late), kind != "valid" && kind != "none", "sim:"+kind, fmt.Sprintf("sim-run-error:%v", runErr != nil), fmt.Sprintf("sim-reported-for-a-past-instance:%v", late))
 		vev.Sample(c19, func() any {
-			return map[string]any{"kind": "simulation", "honest_powers": powers, "injected": kind, "detail": note, "instances": instances, "run_error": fmt.Sprint(runErr)}
+			return map[string]any{"kind": "simulation", "honest_powers": powers, "injected": kind, "reported_for_past_instance": late, "detail": note, "instances": instances, "run_error": fmt.Sprint(runErr)}
 		})
 	})
 }
